@@ -120,6 +120,12 @@ ADD11 = {
  "C20": MIG + FEA,
 }
 
+# round twelve (DESIGN.md 14.12d)
+RUNS = " Long transaction bodies contain uninterrupted runs of 30-70 calls of one kind; a transaction may also be abandoned by leaking it (mem::forget)."
+COL = " Colossal vectors of 66,000-70,000 items (beyond 16-bit indices), half of the index-addressed updates aimed beyond position 2^16."
+ADD12 = {"C05": RUNS, "C06": RUNS, "C07": RUNS, "C17": RUNS, "C09": COL + " Twin wakers (one data pointer, two vtables) for two adapters on one limit observable.",
+         "C10": COL, "C11": COL, "C15": COL, "C14": " Twin wakers (one data pointer, two vtables, separate wake counts) for two adapters on one limit observable, with dozens of registrations between two limit changes."}
+
 checks = []
 for p in props:
     pid = p["id"]
@@ -134,6 +140,8 @@ for p in props:
         text = text + " " + ADD10[pid].strip()
     if pid in ADD11:
         text = text + " " + ADD11[pid].strip()
+    if pid in ADD12:
+        text = text + " " + ADD12[pid].strip()
     checks.append({
         "property_id": pid,
         "quick_cmd": f"./check {pid} --tier quick",
